@@ -12,6 +12,12 @@ import Frp.Model.Str
     enter  m …    group lock: `TCPGroup.Listen` / `HTTPGroup.Register` / `HTTPConnectListen`
     leaveL m gid  tcp/tcpmux `…GroupListener.Close` → `CloseListener` (group lock, then controller lock inside RemoveGroup)
     leaveG m g    http `HTTPGroupController.UnRegister` (controller lock held over the group lock)
+    leaveEdit m gid   the leave's FIRST section alone: the group-lock part of `CloseListener` / `HTTPGroup.UnRegister`
+                  (member removed; last member: channel closed, listener closed / route deleted, port released)
+    leaveDel m    the leave's SECOND section: `delete(ctl.groups, name)` for the object this leave has emptied.
+                  `leaveL` / `leaveG` are the two run back to back (C13.leaveL_eq_sections / leaveG_eq_sections);
+                  whether anything of another join or leave can come BETWEEN them is decided by `Fix.leaveOne`
+                  = "the controller lock is held across both" (regenerated from the source: Frp/Gen/GroupFacts.lean)
     accept c gid  connection c completed its handshake with the group's real listener: it is in the
                   kernel backlog or already in the worker's hands (`tcpLn.Accept()` returned it)
     handoff c m   the worker's `acceptCh <- c` inside `PanicToError`, received by member m which is
@@ -103,10 +109,14 @@ structure Fix where
   listenReal : Bool    -- TCPGroup.Listen listens on realPort and releases it when net.Listen fails
   oneLock : Bool       -- lookup+join and the whole leave run under the controller lock
   closeOnFail : Bool   -- the worker closes a connection whose hand-off send failed
+  leaveOne : Bool      -- a leave's two sections (group edit | table delete) are ONE critical section of the
+                       -- controller lock (CloseListener / UnRegister take it first and keep it to the end)
 deriving DecidableEq, Repr
 
-def pinned : Fix := ⟨false, false, false⟩
-def repaired : Fix := ⟨true, true, true⟩
+/-- pinned: tcp/tcpmux took the controller lock only inside RemoveGroup (the switch has no effect while
+    `oneLock` is off: nobody keeps the controller lock between two labels) -/
+def pinned : Fix := ⟨false, false, false, false⟩
+def repaired : Fix := ⟨true, true, true, true⟩
 
 /-- THE SWITCH: the tree the correspondence engine is compared with.
     Set to `repaired` once hooks/C13-fix-listen-realport.patch, C13-fix-group-race.patch and
@@ -120,6 +130,9 @@ structure St where
   table : List (Str × Nat) := []            -- ctl.groups : name ↦ gid
   pend : List (Str × Str × Nat) := []       -- join goroutines between lookup and enter: (m, g, gid)
   lock : Option Str := none                 -- holder of the controller mutex across lookup…enter (oneLock only)
+                                            -- or across a leave's edit…delete (leaveOne)
+  pdel : List (Str × Nat × Str) := []       -- leaves between their two sections: (member, the object it has
+                                            -- emptied, the name it will delete from the table)
   ext : List EpKey := []                    -- endpoints held by somebody else
   leaked : List Nat := []                   -- ports marked used in ports.Manager that nobody will release
   seen : List Nat := []                     -- connection ids already used
@@ -210,6 +223,8 @@ inductive Label
   | enter (m key : Str) (p : Params) (orc : Oracle)
   | leaveL (m : Str) (gid : Nat)
   | leaveG (m g : Str)
+  | leaveEdit (m : Str) (gid : Nat)
+  | leaveDel (m : Str)
   | accept (c gid : Nat)
   | handoff (c : Nat) (m : Str)
   | send (c : Nat)
@@ -264,6 +279,32 @@ def step (fx : Fix) (s : St) : Label → Option (St × Res)
         -- vhostRouter.Del(g.domain, g.location, g.routeByHTTPUser); delete(ctl.groups, name)
         some ({ s.setObj gid { o with members := [], lnOpen := false } with
                   table := s.table.filter (fun e => !(e.1 == g)) }, .none)
+  | .leaveEdit m gid =>
+    -- section 1 (group lock).  leaveOne: the controller lock was taken first, so it must be free and stays
+    -- with this leave until `leaveDel`; otherwise the section needs no controller lock at all.
+    if s.panicked ∨ (fx.leaveOne = true ∧ lockFree fx s = false) ∨ s.pdel.any (·.1 == m) then none else
+    let o := s.obj gid
+    if m ∉ o.members then none else
+    let ms := o.members.erase m
+    if ms ≠ [] then some (s.setObj gid { o with members := ms }, .none)
+    else if s.kind ≠ .http ∧ o.chClosed = true then some ({ s with panicked := true }, .crash)
+    else
+      some ({ s.setObj gid { o with members := [], chClosed := if s.kind = .http then o.chClosed else true,
+                                     lnOpen := false } with
+                pdel := (m, gid, o.name) :: s.pdel,
+                lock := if fx.leaveOne then some m else s.lock }, .none)
+  | .leaveDel m =>
+    -- section 2 (controller lock): `if ctl.groups[name] == g { delete(ctl.groups, name) }` — the careful form;
+    -- for the one-section code the test is always true (C13.repaired_table_members_consistent)
+    if s.panicked then none else
+    match s.pdel.find? (·.1 == m) with
+    | none => none
+    | some (_, gid, name) =>
+      if fx.leaveOne = false ∧ lockFree fx s = false then none else
+      some ({ s with table := if s.table.lookup name = some gid then s.table.filter (fun e => !(e.1 == name))
+                              else s.table,
+                     pdel := s.pdel.filter (fun x => !(x.1 == m)),
+                     lock := if fx.leaveOne then none else s.lock }, .none)
   | .accept c gid =>
     let o := s.obj gid
     if s.panicked ∨ s.kind = .http ∨ o.lnOpen = false ∨ o.workerDead ∨ c ∈ s.seen then none
